@@ -417,6 +417,9 @@ type SimKernel struct {
 	reports  [3]map[SimOID][]SimReport
 	failAt   map[int]syscall.Errno
 	failWhen func(*SimRequest) syscall.Errno
+	// DeferReply, when it returns a non-nil channel for a request, holds that request's answer back until the channel is
+	// closed; the simulated socket keeps serving later requests meanwhile (add-only hook for the C18 probes)
+	DeferReply func(*SimRequest) <-chan struct{}
 	bsnl     *buffnetlink.Server
 	conns    []*simConn
 
@@ -615,6 +618,14 @@ func (k *SimKernel) serveOne(c *simConn, m []byte) {
 	}
 	if needAck {
 		out = append(out, k.ackMsg(m, req.Seq, errno)...)
+	}
+	if k.DeferReply != nil {
+		if ch := k.DeferReply(req); ch != nil {
+			// the answer to this request is held back while the socket goes on serving later requests: replies may
+			// then overtake it, as they can on a real netlink socket shared by two callers
+			go func() { <-ch; c.reply(out) }()
+			return
+		}
 	}
 	c.reply(out)
 }
